@@ -115,6 +115,8 @@ def class_invariants(F, S, cls, extra_ok_writers=()):
             continue
         carried = True
         for c in copies:
+            if any(i.get("delegating") for i in c.d.get("inits", [])):
+                continue        # runs a full (non-copy) constructor of the class: whatever those establish holds
             inits = {i.get("field"): i for i in c.d.get("inits", []) if "field" in i}
             for fld in fields:
                 ini = inits.get(fld)
